@@ -367,6 +367,12 @@ func (runInfo *runInfoStruct) invokeMemberExpr(expr *ast.MemberExpr) {
 	switch runInfo.rv.Kind() {
 	case reflect.Struct:
 		field, found := runInfo.rv.Type().FieldByName(expr.Name)
+		if found && field.PkgPath != "" {
+			// unexported: reflect would hand out a value that panics on Interface()
+			runInfo.err = newStringError(expr, "struct member '"+expr.Name+"' is not exported")
+			runInfo.rv = nilValue
+			return
+		}
 		if found {
 			runInfo.rv = runInfo.rv.FieldByIndex(field.Index)
 			return
